@@ -505,11 +505,21 @@ func (r *Recomposer) recomp(v any, rv reflect.Value) {
 			var m any
 			var has bool
 			if m, has = vm[k]; !has {
-				if m, has = vm[sf.Name]; !has {
+				// The spellings of the field name are a fallback for members
+				// written without the tag; a member filed under the key of
+				// another field is that field's.
+				other := func(name string) (any, bool) {
+					if _, claimed := im[name]; claimed && name != k {
+						return nil, false
+					}
+					x, ok := vm[name]
+					return x, ok
+				}
+				if m, has = other(sf.Name); !has {
 					name := []byte(sf.Name)
 					name[0] |= 0x20
-					if m, has = vm[string(name)]; !has {
-						m, has = vm[strings.ToLower(string(name))]
+					if m, has = other(string(name)); !has {
+						m, has = other(strings.ToLower(string(name)))
 					}
 				}
 			}
